@@ -22,5 +22,7 @@ PROP = {
         {"name": "main"},
         # overflow checks + debug assertions on, over a reduced set of cuts (scale-1 corpus, one seed)
         {"name": "chk", "variant": "chk", "args": ["reduced=1"], "tiers": ("thorough",), "post": _post_chk, "timeout": 3600},
+        # the same reduced set in-process under AddressSanitizer (zlib-rs inflate, lazy record buffers on short input)
+        {"name": "asan", "variant": "asan", "args": ["inproc=1", "reduced=1"], "tiers": ("thorough",), "optional": True, "timeout": 3600},
     ],
 }
